@@ -356,6 +356,13 @@ func (dec *xmlReader) Struct(tag int, f func(reader) error) error {
 		return err
 	}
 	for subDec.elem != nil {
+		// An element left unread is skipped as a whole, with everything nested in it:
+		// Next() alone would step into an unread structure and take its children for siblings.
+		if subDec.Type() == TypeStructure {
+			if err := subDec.r.Skip(); err != nil {
+				return err
+			}
+		}
 		if err := subDec.Next(); err != nil {
 			return err
 		}
